@@ -225,11 +225,13 @@ def add_delays(r, model, dt, horizon, p=0.6, far=False, delayed_reactants=False,
 
 
 # ------------------------------------------------------------------ finite-state family (for the CME oracle)
+FAMILIES = ["interconv", "dimer", "hetero", "order3", "decay", "birthdeath", "hillgate", "catalysis",
+            "general_uni", "general_bi", "prophill", "homotrimer", "mixed"]
+
+
 def gen_finite_network(r, family=None):
     """Networks with a finite (or safely truncatable) reachable set. Returns (model, meta)."""
-    fams = ["interconv", "dimer", "hetero", "order3", "decay", "birthdeath", "hillgate", "catalysis",
-            "general_uni", "general_bi", "prophill", "homotrimer", "mixed"]
-    fam = family or r.choice(fams)
+    fam = family or r.choice(FAMILIES)
     m = {"species": [], "init": {}, "params": {}, "reactions": [], "rules": []}
 
     def ma(reactants, products, k):
